@@ -9,7 +9,7 @@ import layers
 props = [json.loads(l) for l in open(os.path.join(HERE, "properties.jsonl"))]
 
 TEXT = {
- "C01": ("reference-model oracle (era-based calendar, odometer-validated) on return events of both gmtime entry points; the 400-year day cycle is enumerated completely, the thorough tier also every 400-year cycle of the i32 year range at 14 probe days; range/i64 edges; random instants", "trusts the hand-written calendar model M-cal (self-tested against a day-by-day odometer at start-up)"),
+ "C01": ("reference-model oracle (era-based calendar, odometer-validated) on return events of both gmtime entry points; the 400-year day cycle is enumerated completely, every region of the i32 year range is probed per 400-year cycle at 14 boundary days (quick: 43 000 cycles incl. all near 2000 and both ends; thorough: all 10.7 M cycles); range/i64 edges; random instants", "trusts the hand-written calendar model M-cal (self-tested against a day-by-day odometer at start-up)"),
  "C02": ("validity oracle (month-length rule) + day-count oracle on UtcDateTime::new, both round trips, order claim on perturbed pairs; validity grid enumerated for 58 (thorough: 16 000) years", "trusts M-cal; error variants are not compared (statement names none)"),
  "C03": ("linear-scan zone model with independent leap-second model against binary search lookup, owned and borrowed zones, every transition instant -2..+2, tables up to 4097 (thorough 2^20) entries", "trusts M-zone / M-leap (brute-force self-tests); zones are generated, not enumerated"),
  "C04": ("period model [S(y), next E) over 400 consecutive years for IANA, idiom, random and purposely tied rules, through constructed zones, TZ descriptions and version-3 footers", "trusts M-rule (rule days by walking the month); degenerate rules (S=E every year) are left unspecified"),
@@ -17,7 +17,7 @@ TEXT = {
  "C06": ("gap oracle defined from the clock at X-1 and X for table, junction and rule transitions; order, uniqueness of each gap, earliest/latest", "as C05; zones whose table transitions coincide in UTC through an inserted leap second (known finding F5) are excluded from random generation and replayed from explicit witnesses"),
  "C07": ("the facade's own monitors (panic hook, counting allocator with hard cap, thread CPU clock) over hostile inputs to every public operation: every truncation of vendored files, structured mutations, hostile counts, TZ-string edits, constructors at i32/i64 extremes, all queries on whatever parses; release and overflow-checked builds", "a clean run is not memory safety; tz-rs forbids unsafe code, so panics/overflow/allocation are the reachable failure modes"),
  "C15": ("N-thread vs alone result digests on shared zones (2/4/8/16 threads, barriers, random yields); LD_PRELOAD interposer on getenv/setenv/putenv/tzset/localtime* and strace window (no ambient state touched); digest invariance under TZ/TZDIR/LANG/cwd; writable/TLS sections of the compiled rlib; auto-trait assertions incl. Freeze; Miri (and ThreadSanitizer in the thorough tier) on the thread workload", "the 'all future edits' quantifier is decided per tree; the artefact-section and auto-trait observations are build-time observations labelled as such"),
- "C19": ("the crate is built with no features / alloc / std and a deterministic no-alloc workload (plus an alloc-level one) is run against each build; digests must be identical", "differential; each build's results are pinned to oracles by the other checks on the std build"),
+ "C19": ("the crate is built with no features / alloc / std and a deterministic no-alloc workload, an alloc-level one, and a replay of 3000 zones + queries written by the harness' own generators (tie rules, IANA rules, leap tables, every table shape) are run against each build; digests must be identical", "differential; each build's results are pinned to oracles by the other checks on the std build"),
  "C08": ("differential decoding: an independent RFC 8536 writer and decoder (Must / MustFail / Unspec) against from_tz_data on generated v1/v2/v3 files, all 894 distinct vendored tzdata files and every single-field corruption of the named kinds", "trusts M-tzif (writer and decoder are checked against each other on every generated file; disagreement = inconclusive)"),
  "C09": ("recursive-descent recogniser + denotation written from the grammar against three entry points (settings, v2 footer, v3 footer): grammar cross product, every single-character edit of sentences, thorough: all strings of length <= 6 over a 14-letter alphabet", "trusts M-posix; strings with >3-digit numbers, whitespace or non-ASCII next to a name are left unspecified"),
  "C20": ("tzset(3) resolution model over a virtual file system with a recording reader: exact sequence of paths requested and result class, exhaustively over 44 value shapes x 9 directory lists x all file assignments", "trusts M-resolve; the real file system is not involved in this check"),
@@ -25,7 +25,7 @@ TEXT = {
  "C11": ("brute-force 400-year definition against the constructor on all 1 324 801 day-notation pairs x breakpoints of d (thorough: all 105 breakpoints, each realised twice), error variant = first violated condition", "trusts M-rule day tables (closed form validated against walking the month over the cycle)"),
  "C12": ("probe zones pin the hidden UTC<->leap-count conversions: forward switch instant, instant reported by the search, their agreement, monotonicity; tables of both signs incl. the real 27-record one", "trusts M-leap (f defined as max{L: g(L)<=u}, brute-force validated)"),
  "C13": ("clause-by-clause validator against both constructors on valid zones, every single-defect perturbation at first/middle/last position, extremes and random malformed tuples", "trusts the A.3 validator; error variants compared on single-defect inputs only"),
- "C14": ("field invariant applied by the facade to every DateTime produced by any workload of any check, plus a dedicated workload over all constructors, projection and the comparison claims", "trusts M-cal"),
+ "C14": ("field invariant applied by the facade to every DateTime produced by any workload of any check, plus a dedicated workload over all constructors, projection and the comparison claims (incl. second-60 values against every other spelling of the same instant)", "trusts M-cal"),
  "C16": ("explicit-sign floor division in i128 against all three total-nanosecond constructors, total_nanoseconds(), range edges, i128 extremes, ns validation at four entry points", "trusts M-cal and the 10-line splitter"),
  "C17": ("find_n against the allocating search for every buffer length 0..k+2 with stale pre-filled buffers, error cases included", "the allocating search is the oracle (its own correctness is C05/C06)"),
  "C18": ("independent regular-grammar reader of the rendering; fields, nanoseconds and offset read back and compared with the getters; offsets over the full i32 range", "trusts M-text"),
